@@ -161,6 +161,10 @@ def tasks(tier, seed, selftest=False):
         for ch in ("block", "scc", "min"):
             for fam in ("B22", "CH4", "S2C2"):
                 S.append(dict(family=fam, skeleton=("seeds", ch), timebox=300, cube_k=3, nbits=20))
+    # two independent switches: expand_attractor_seeds leaves stubs behind whose attractors are all covered by expanded
+    # siblings - whatever it caches on them must still be a correct answer for the stub
+    for sk in (("aseeds",), ("aseeds", "cands"), ("succ", "aseeds", "seeds"), ("aseeds", "everyseeds")):
+        S.append(dict(family="P:SW2+SW2", skeleton=sk, timebox=10 if q else 600))
     return histcheck.mk_tasks(PROP, S, seed)
 
 
